@@ -185,14 +185,25 @@ def strip_lean_comments(s):
     return "".join(out)
 
 
-def lean_sources():
-    return sorted(glob.glob(os.path.join(LEAN_DIR, "LWV", "**", "*.lean"), recursive=True)) + \
-        [os.path.join(LEAN_DIR, "LWV.lean"), os.path.join(LEAN_DIR, "Driver.lean")]
+def lean_sources(extra=()):
+    """Every Lean file that can take part in a build: all files a module of the library or the driver imports
+    (transitively, resolved textually), plus the generated ones. A scratch file nobody imports is not part of any proof."""
+    roots = [os.path.join(LEAN_DIR, "Driver.lean")] + sorted(glob.glob(os.path.join(LEAN_DIR, "LWV", "Props", "C[0-9][0-9].lean"))) + \
+        [os.path.join(LEAN_DIR, *m.split(".")) + ".lean" for m in extra]
+    seen, todo = set(), list(roots)
+    while todo:
+        f = todo.pop()
+        if f in seen or not os.path.exists(f):
+            continue
+        seen.add(f)
+        for m in re.finditer(r"^import\s+(LWV[\w.]*)", open(f).read(), re.M):
+            todo.append(os.path.join(LEAN_DIR, *m.group(1).split(".")) + ".lean")
+    return sorted(seen)
 
 
-def grep_forbidden():
+def grep_forbidden(extra=()):
     hits = []
-    for p in lean_sources():
+    for p in lean_sources(extra):
         if not os.path.exists(p):
             continue
         body = strip_lean_comments(open(p).read())
@@ -246,10 +257,15 @@ def lake_build(targets):
 
 
 def lean_prove(ctx, module):
-    """Build the Props module; register one obligation per theorem; audit axioms."""
-    names, path = theorem_names(module)
+    """Build the Props module(s); register one obligation per theorem; audit axioms.
+    `module` may be a list: every theorem of every listed module is an obligation of the property."""
+    modules = module if isinstance(module, (list, tuple)) else [module]
+    names = []
+    for mod in modules:
+        ns, _ = theorem_names(mod)
+        names += ns
     with Lock("lake"):
-        ok, errors, text = lake_build([module, "lwdriver"] if os.path.exists(os.path.join(LEAN_DIR, "Driver.lean")) else [module])
+        ok, errors, text = lake_build(list(modules) + (["lwdriver"] if os.path.exists(os.path.join(LEAN_DIR, "Driver.lean")) else []))
         failed = {}
         if not ok:
             for f, line, msg in errors:
@@ -262,22 +278,21 @@ def lean_prove(ctx, module):
         axioms = {}
         if ok:
             aud = os.path.join(WORK, "audit_%s.lean" % ctx.prop)
-            write_if_changed(aud, "import %s\n" % module + "".join("#print axioms %s\n" % n for n in names))
+            write_if_changed(aud, "".join("import %s\n" % m for m in modules) + "".join("#print axioms %s\n" % n for n in names))
             rc, out, err = run(["lake", "env", "lean", aud], cwd=LEAN_DIR, timeout=1200)
             for m in re.finditer(r"'([^']+)' (does not depend on any axioms|depends on axioms: \[([^\]]*)\])", out + err, re.S):
                 axioms[m.group(1)] = [] if m.group(3) is None else [a.strip() for a in m.group(3).replace("\n", " ").split(",") if a.strip()]
             if rc != 0:
                 ctx.notes.append("axiom audit exited %d: %s" % (rc, (out + err)[-400:]))
-    forb = grep_forbidden()
+    forb = grep_forbidden(modules)
     ctx.oblige("audit", "no sorry/admit/axiom/native_decide/bv_decide/implemented_by/unsafe/maxHeartbeats 0 in Lean sources", not forb, "; ".join(forb[:5]))
     broken = []
     thm_cov = []
-    short = module.split(".")[-1]
     for n in names:
         base = n.split(".")[-1]
         fkey = [k for k in failed if k.endswith(":" + base)]
         if not ok:
-            # a failed module discharges nothing; name the theorems that failed to check
+            # a failed build discharges nothing; name the theorems that failed to check
             good = False
             detail = failed[fkey[0]] if fkey else "module did not build"
             if fkey:
@@ -291,17 +306,18 @@ def lean_prove(ctx, module):
         ctx.oblige("theorem", n, good, detail)
         thm_cov.append({"theorem": n, "axioms": axioms.get(n), "checked": good})
     if not ok and not broken:
-        broken.append((module, "; ".join("%s: %s" % kv for kv in list(failed.items())[:3])))
+        broken.append((modules[0], "; ".join("%s: %s" % kv for kv in list(failed.items())[:3])))
     if forb:
         broken.append(("audit", "; ".join(forb[:5])))
     ctx.coverage["theorems"] = thm_cov
-    ctx.coverage["lean_module"] = module
+    ctx.coverage["lean_module"] = ", ".join(modules)
     if ctx.tier == "thorough" and ok:
-        with Lock("lake"):
-            rc, out, err = run(["lake", "env", "leanchecker", module], cwd=LEAN_DIR, timeout=3600)
-        ctx.oblige("leanchecker", "leanchecker " + module, rc == 0, (out + err)[-300:])
-        if rc != 0:
-            broken.append(("leanchecker", (out + err)[-300:]))
+        for mod in modules:
+            with Lock("lake"):
+                rc, out, err = run(["lake", "env", "leanchecker", mod], cwd=LEAN_DIR, timeout=3600)
+            ctx.oblige("leanchecker", "leanchecker " + mod, rc == 0, (out + err)[-300:])
+            if rc != 0:
+                broken.append(("leanchecker", (out + err)[-300:]))
     return ok, broken, failed
 
 
